@@ -95,6 +95,11 @@ def cleanUp {α : Type} (now age : Int) (s : St α) : Except String (St α) := d
   let acts ← lookupAll s2.actions (referenced s2.flows)
   pure { s2 with actions := acts }
 
+/-- well-formedness of the helper index: `flow_id_states[fid]` lists exactly the instances of flow `fid`, in `flow_states` order -/
+def IdxOk {α : Type} (s : St α) : Prop :=
+  ∀ e ∈ s.idx, e.2 = (s.flows.filter (fun f => f.flowId == e.1)).map (·.uid)
+
+
 def ageMicros : Int := (NemoVerif.Generated.C11.cleanUpAgeSeconds : Int) * 1000000
 
 end NemoVerif.CleanUp
